@@ -1,5 +1,6 @@
 #ifndef VERIF_NVECTOR_SERIAL_H
 #define VERIF_NVECTOR_SERIAL_H
+#include <math.h>
 #include <sundials/sundials_nvector.h>
 static inline N_Vector N_VNewEmpty_Serial(sunindextype n, SUNContext ctx) {
     N_Vector v = (N_Vector)malloc(sizeof(*v));
@@ -10,6 +11,7 @@ static inline N_Vector N_VNewEmpty_Serial(sunindextype n, SUNContext ctx) {
 static inline N_Vector N_VNew_Serial(sunindextype n, SUNContext ctx) {
     N_Vector v = N_VNewEmpty_Serial(n, ctx);
     v->content->data = (realtype *)malloc(sizeof(realtype) * (size_t)(n > 0 ? n : 0) + (n > 0 ? 0 : 1));
+    for (sunindextype i = 0; i < n; i++) v->content->data[i] = NAN;   /* N_VNew_Serial does not initialise: poison */
     v->content->own_data = 1;
     return v;
 }
